@@ -121,7 +121,10 @@ def c06_kernels(isa):
                         load = load.replace("[x1", "[" + ldbase)
                         out.append([f"str x7, {st}"] + bump + [f"ldr x8, {load}"])
                         out.append([f"str x7, {st}"] + bump + [f"str x9, {st}", f"ldr x8, {load}"])
-        out += [["str x7, [x1], #8", "ldr x8, [x1, #-8]"], ["str x7, [x1, #8]!", "ldr x8, [x1]"], ["str x7, [x1], #8", "ldr x8, [x1]"]]
+        out += [["str x7, [x1, #8]", "ldr x8, [x1, #8]", "ldr x9, [x1, #8]", "ldr x10, [x1, #8]"], ["str x7, [x1], #8", "ldr x8, [x1, #-8]"], ["str x7, [x1, #8]!", "ldr x8, [x1]"], ["str x7, [x1], #8", "ldr x8, [x1]"]]
+    if isa == "x86":
+        out += [["movq %rsi, 8(%rax)", "movq 8(%rax), %rdi", "movq 8(%rax), %r8", "movq 8(%rax), %r9"],
+                ["movq %rsi, (%rax)", "addq $8, %rax", "movq -8(%rax), %rdi", "movq -8(%rax), %r8"]]
     return out
 
 
@@ -149,6 +152,11 @@ _cache = {}
 def analyse(isa, arch, lines, flag_deps, first_line=1):
     if arch not in _cache:
         mm = MachineModel(arch=arch)
+        if MODE in ("C06", "C03"):
+            # model variant: most shipped models have forwarding latency 0 / default write-back latency, which would hide
+            # wrong edge weights; the harness analyses with its in-memory copy set to distinctive values
+            mm._data["store_to_load_forward_latency"] = 3.0
+            mm._data["p_index_latency"] = 2.0
         _cache[arch] = (mm, ArchSemantics(mm), get_parser(isa))
     mm, sem, parser = _cache[arch]
     kernel = parser.parse_file("\n".join(lines) + "\n", start_line=first_line - 1)
